@@ -39,7 +39,7 @@ TIERS = {
 
 def _cfg(path, c):
     path.write_text(
-        "CONSTANTS\n  Modes = {\"gen\", \"tab\", \"run\"}\n"
+        "CONSTANTS\n  Modes = {\"gen\", \"hdr\", \"log\", \"tab\", \"run\"}\n"
         + "".join(f"  {k} = {{{v}}}\n" if k in ("OmegaKinds", "SigmaKinds", "FixPats", "RowSets", "IterSets") else f"  {k} = {v}\n" for k, v in c.items())
         + "INIT Init\nNEXT Next\nINVARIANT AutomatonIsReference\nINVARIANT CovDominant\nINVARIANT CovTwoWays\nINVARIANT PhiTriOK\nINVARIANT Emit\nCHECK_DEADLOCK FALSE\n"
     )
@@ -81,15 +81,56 @@ METHODS = {
     1: ("First Order Conditional Estimation with Interaction", "MINIMUM VALUE OF OBJECTIVE FUNCTION"),
     2: ("Importance Sampling (No Prior)", "FINAL VALUE OF OBJECTIVE FUNCTION"),
     3: ("Stochastic Approximation Expectation-Maximization (No Prior)", "FINAL VALUE OF LIKELIHOOD FUNCTION"),
+    4: ("First Order (Evaluation)", "MINIMUM VALUE OF OBJECTIVE FUNCTION"),
 }
+DESIGN_OPT = "D-OPTIMALITY"
 
 
-def title(no, goal=True):
-    meth, g = METHODS[no]
+def plain(meta):
+    """the title of the same table in the .phi / .cov / .cor / .coi file: no Goal Function part"""
+    return dict(meta, goal=False)
+
+
+def title(no, meta):
+    """TABLE NO. line from the abstract metadata of NMTable.tla (Meta)"""
+    meth, g = METHODS[meta["meth"]]
     t = f"TABLE NO. {no:5d}: {meth}: "
-    if goal:
+    if meta["design"]:
+        t += f"{DESIGN_OPT}: "
+    if meta["goal"]:
         t += f"Goal Function={g}: "
-    return t + "Problem=1 Subproblem=0 Superproblem1=0 Iteration1=0 Superproblem2=0 Iteration2=0\n"
+    return t + (f"Problem={meta['problem']} Subproblem={meta['sub']} Superproblem1={meta['sup1']} Iteration1={meta['it1']} "
+                f"Superproblem2={meta['sup2']} Iteration2={meta['it2']}\n")
+
+
+def check_meta(t, no, meta, what):
+    """number and title metadata of a table that was read"""
+    meth, g = METHODS[meta["meth"]]
+    exp = {"number": no, "method": meth, "design_optimality": DESIGN_OPT if meta["design"] else None, "goal_function": g if meta["goal"] else None,
+           "problem": meta["problem"], "subproblem": meta["sub"], "superproblem1": meta["sup1"], "iteration1": meta["it1"],
+           "superproblem2": meta["sup2"], "iteration2": meta["it2"], "is_evaluation": meta["meth"] == 4}
+    got = {k: getattr(t, k) for k in exp}
+    want(got == exp, "title_metadata", f"{what}: title metadata {({k: v for k, v in got.items() if v != exp[k]})} read, written {({k: exp[k] for k, v in got.items() if v != exp[k]})}")
+
+
+def check_hdr(case, d):
+    """one title line of every shape on a small table file of every kind"""
+    from pharmpy.model.external.nonmem.table import CovTable, ExtTable, NONMEMTableFile, PhiTable
+
+    no, meta = case["no"], case["meta"]
+    bodies = {
+        ".ext": (ExtTable, header(["ITERATION", "THETA1", "OBJ"]) + f"{0:13d}" + efmt(1.0) + objfmt(2.0) + "\n"),
+        ".phi": (PhiTable, header(["SUBJECT_NO", "ID", "ETA(1)", "ETC(1,1)", "OBJ"]) + f"{1:13d}{1:13d}" + efmt(1.0) + efmt(1.0) + objfmt(2.0) + "\n"),
+        ".cov": (CovTable, header(["NAME", "THETA1"]) + " " + f"{'THETA1':<12}" + efmt(1.0) + "\n"),
+        ".coi": (CovTable, header(["NAME", "THETA1"]) + " " + f"{'THETA1':<12}" + efmt(1.0) + "\n"),
+    }
+    for suffix, (cls, body) in bodies.items():
+        path = d / ("run1" + suffix)
+        path.write_text(title(no, meta) + body)
+        tf = NONMEMTableFile(path)
+        want(len(tf) == 1 and isinstance(tf[0], cls), "table_kind", f"{suffix}: {len(tf)} table(s) of type {type(tf[0]).__name__}")
+        check_meta(tf[0], no, meta, suffix)
+        want(tf.table_no(no) is tf[0], "table_no", f"{suffix}: table_no({no})")
 
 
 def header(cols):
@@ -99,10 +140,13 @@ def header(cols):
 def write_ext(path, run):
     out = []
     cols = ["ITERATION"] + [file_label(p) for p in run["fileorder"]] + ["OBJ"]
-    for tab in run["ext"]:
-        out.append(title(tab["no"]))
+    tables = [(tab["no"], meta, tab["rows"]) for tab, meta in zip(run["ext"], run["metas"])]
+    if run["dtab"]["on"]:
+        tables.append((run["dtab"]["no"], run["dtab"]["meta"], run["dtab"]["rows"]))
+    for no, meta, rows in tables:
+        out.append(title(no, meta))
         out.append(header(cols))
-        for row in tab["rows"]:
+        for row in rows:
             it = -(CODEBASE + row["n"]) if row["special"] else row["n"]
             out.append(f"{it:13d}" + "".join(efmt(real(v)) for v in row["vals"]) + objfmt(float(row["obj"])) + "\n")
     path.write_text("".join(out))
@@ -110,7 +154,7 @@ def write_ext(path, run):
 
 def write_cov(path, run, matrix):
     labels = [file_label(p) for p in run["fileorder"]]
-    out = [title(run["ext"][-1]["no"], goal=False), header(["NAME"] + labels)]
+    out = [title(run["ext"][-1]["no"], plain(run["metas"][-1])), header(["NAME"] + labels)]
     for lab, row in zip(labels, matrix):
         out.append(" " + f"{lab:<12}" + "".join(efmt(float(v)) for v in row) + "\n")
     path.write_text("".join(out))
@@ -123,10 +167,13 @@ def write_phi(path, run):
     cols = ["SUBJECT_NO", "ID"] + [f"{pre}({i})" for i in range(1, n + 1)]
     cols += [f"{prc}({i},{j})" for i in range(1, n + 1) for j in range(1, i + 1)] + ["OBJ"]
     out = []
-    for tab, phi in zip(run["ext"], run["phi"]):
-        out.append(title(tab["no"], goal=False))
+    tables = [(tab["no"], meta, phi["rows"], phi["flat"]) for tab, meta, phi in zip(run["ext"], run["metas"], run["phi"])]
+    if run["dtab"]["on"]:  # the $DESIGN problem also writes a phi table (contributions to the design criterion)
+        tables.append((run["dtab"]["no"], run["dtab"]["meta"], run["dtab"]["phirows"], run["dtab"]["phiflat"]))
+    for no, meta, rows, flats in tables:
+        out.append(title(no, plain(meta)))
         out.append(header(cols))
-        for s, (row, flat) in enumerate(zip(phi["rows"], phi["flat"]), start=1):
+        for s, (row, flat) in enumerate(zip(rows, flats), start=1):
             out.append(f"{s:13d}{row['id']:13d}" + "".join(efmt(float(v)) for v in list(row["eta"]) + list(flat)) + objfmt(float(row["obj"])) + "\n")
     path.write_text("".join(out))
 
@@ -146,6 +193,10 @@ def write_lst(path, run):
             lines += [" Elapsed covariance  time in seconds:     0.28"]
         lines += [" Elapsed postprocess time in seconds:     0.09", "1", "", f" #OBJT:**************       {goal}       ********************", "",
                   f" #OBJV:********************************************      {float(tab['final_ofv']):.3f}       **************************************************", ""]
+    if run["dtab"]["on"]:
+        lines += ["1", f" #TBLN:{run['dtab']['no']:7d}", f" #METH: {METHODS[4][0]}: {DESIGN_OPT}", "", " ESTIMATION STEP OMITTED:                 YES",
+                  " DESIGN TYPE: D-OPTIMALITY, -LOG(DET(FIM))", "", " #TERM:", "", " ETABAR IS THE ARITHMETIC MEAN OF THE ETA-ESTIMATES,", "",
+                  " #TERE:", " Elapsed opt. design time in seconds:     0.02", " Elapsed postprocess time in seconds:     0.00", "1", ""]
     lines += [" Elapsed finaloutput time in seconds:     0.02", " #CPUT: Total CPU Time in Seconds,        0.720", "Stop Time:", "Sun Oct  4 10:00:04 CEST 2026", ""]
     path.write_text("\n".join(lines))
 
@@ -194,6 +245,8 @@ def model_code(run):
         code.append("$TABLE " + " ".join(t["listed"]) + (" NOAPPEND" if t["noappend"] else "") + " NOPRINT ONEHEADER FILE=sdtab1")
     elif "sdtab" in run:
         code.append("$TABLE ID PRED RES NOAPPEND NOPRINT FILE=sdtab1")
+    if run["dtab"]["on"]:  # a $DESIGN problem after the estimation problem (cf. tests/testdata/nonmem/pheno_design.mod)
+        code += ["$PROBLEM DESIGN", "$DATA data.csv IGNORE=@ REWIND", "$INPUT ID TIME DV", "$MSFI run1.msf", "$DESIGN APPROX=FO FIMDIAG=1 GROUPSIZE=1 OFVTYPE=1"]
     return "\n".join(code) + "\n"
 
 
@@ -320,13 +373,16 @@ def check_ext_tables(run, path):
 
     tf = NONMEMTableFile(path)
     labels = [report_label(p) for p in run["reportorder"]]
-    want(len(tf) == len(run["ext"]), "ext_table_count", f"{len(tf)} tables in .ext, {len(run['ext'])} written")
-    for t, tab in zip(tf, run["ext"]):
+    dt = run["dtab"]
+    want(len(tf) == len(run["ext"]) + (1 if dt["on"] else 0), "ext_table_count", f"{len(tf)} tables in .ext, {len(run['ext']) + (1 if dt['on'] else 0)} written")
+    if dt["on"]:
+        t = tf[len(run["ext"])]
         want(isinstance(t, ExtTable), "ext_type", "not an ExtTable")
-        want(t.number == tab["no"], "ext_table_number", f"table number {t.number} != {tab['no']}")
-        meth, goal = METHODS[tab["no"]]
-        want((t.method, t.goal_function, t.problem, t.subproblem, t.iteration2) == (meth, goal, 1, 0, 0), "ext_title",
-             f"title metadata {(t.method, t.goal_function, t.problem, t.subproblem)} != {(meth, goal, 1, 0)}")
+        check_meta(t, dt["no"], dt["meta"], f".ext table {dt['no']} (design)")
+        want(len(t.data_frame) == len(dt["rows"]), "ext_row_count", f"design table: {len(t.data_frame)} rows, {len(dt['rows'])} written")
+    for t, tab, meta in zip(tf, run["ext"], run["metas"]):
+        want(isinstance(t, ExtTable), "ext_type", "not an ExtTable")
+        check_meta(t, tab["no"], meta, f".ext table {tab['no']}")
         df = t.data_frame
         want(list(df.columns) == ["ITERATION"] + labels + ["OBJ"], "ext_columns", f"columns {list(df.columns)}")
         want(len(df) == len(tab["rows"]), "ext_row_count", f"{len(df)} rows, {len(tab['rows'])} written")
@@ -372,6 +428,7 @@ def check_cov_table(run, path):
 
     tf = NONMEMTableFile(path)
     want(len(tf) == 1 and isinstance(tf[0], CovTable), "cov_table", "not a single CovTable")
+    check_meta(tf[0], run["ext"][-1]["no"], plain(run["metas"][-1]), path.suffix)
     df = tf[0].data_frame
     labels = [report_label(run["reportorder"][k - 1]) for k in run["covidx"]]
     want(list(df.index) == labels and list(df.columns) == labels, "cov_labels", f".cov labels {list(df.index)} / {list(df.columns)} != {labels}")
@@ -384,10 +441,14 @@ def check_phi_tables(run, path):
     from pharmpy.model.external.nonmem.table import NONMEMTableFile, PhiTable
 
     tf = NONMEMTableFile(path)
-    want(len(tf) == len(run["phi"]), "phi_table_count", f"{len(tf)} tables in .phi")
+    dt = run["dtab"]
+    want(len(tf) == len(run["phi"]) + (1 if dt["on"] else 0), "phi_table_count", f"{len(tf)} tables in .phi")
     pre = "PHI" if run["phikind"] == "PHI" else "ETA"
-    for t, tab, phi in zip(tf, run["ext"], run["phi"]):
-        want(isinstance(t, PhiTable) and t.number == tab["no"], "phi_table", "not the PhiTable written")
+    if dt["on"]:
+        check_meta(tf[len(run["phi"])], dt["no"], plain(dt["meta"]), f".phi table {dt['no']} (design)")
+    for t, tab, meta, phi in zip(tf, run["ext"], run["metas"], run["phi"]):
+        want(isinstance(t, PhiTable), "phi_table", "not a PhiTable")
+        check_meta(t, tab["no"], plain(meta), f".phi table {tab['no']}")
         exp = phi["expected"]
         n = len(exp[0]["eta"])
         ids = [e["id"] for e in exp]
@@ -438,7 +499,10 @@ def check_results(run, d, with_cor, nothing_checked):
                   f"parameter_estimates (last step {last['rowset']})")
         want(close(res.ofv, last["final_ofv"]), "ofv", f"ofv {res.ofv} != {last['final_ofv']}")
     ses = res.standard_errors
-    if run["has_se"]:
+    design = run["dtab"]["on"]
+    if design:
+        pass  # the expected standard errors of the design table: which table they are reported from is not judged
+    elif run["has_se"]:
         want(ses is not None, "standard_errors_missing", "no standard errors although rows -1000000001/-1000000005 are present")
         series_eq(ses, knames, [real(last["se"]["vals"][k]) for k in kept], "standard_errors", "standard_errors")
         rse = res.relative_standard_errors
@@ -453,7 +517,9 @@ def check_results(run, d, with_cor, nothing_checked):
         series_eq(res.parameter_estimates_sdcorr, knames, exp, "parameter_estimates_sdcorr", "parameter_estimates_sdcorr")
     aux = 0
     # covariance step
-    if run["has_se"]:
+    if design:
+        pass
+    elif run["has_se"]:
         cnames = [names[k - 1] for k in run["covidx"]]
         cov = res.covariance_matrix
         want(cov is not None, "covariance_missing", "no covariance matrix although the covariance step succeeded and .cov exists")
@@ -536,6 +602,38 @@ def check_results(run, d, with_cor, nothing_checked):
     return aux
 
 
+LOG_MESSAGES = ["Broken table in ext-file run1.ext, table no. {i}", "MINIMIZATION TERMINATED\nDUE TO ROUNDING ERRORS (ERROR=134) [{i}]",
+                "PARAMETER ESTIMATE IS NEAR ITS BOUNDARY ({i})", "  leading blanks, \"quotes\", unicode \u00e5\u00e4\u00f6 and a trailing blank {i} "]
+
+
+def log_case(case):
+    """a ModelfitResults whose log has the entries TLC lists (order, category, time stamp, message verbatim)
+    next to numeric content, through to_json / read_results as a string and as a file"""
+    import pandas as pd
+
+    from pharmpy.workflows import Log
+    from pharmpy.workflows.results import ModelfitResults, read_results
+
+    log = Log()
+    for e in case["entries"]:
+        msg = LOG_MESSAGES[e["msg"] % len(LOG_MESSAGES)].format(i=e["msg"])
+        log = log.log_error(msg) if e["cat"] == "ERROR" else log.log_warning(msg)
+    want([(x.category, x.message) for x in log] == [(e["cat"], LOG_MESSAGES[e["msg"] % len(LOG_MESSAGES)].format(i=e["msg"])) for e in case["entries"]],
+         "log_build", "the log does not hold the entries in the order they were logged")
+    res = ModelfitResults(ofv=-12.5, parameter_estimates=pd.Series({"A": 1.0, "B": -2.0}, name="estimates"), minimization_successful=False, log=log)
+    with tempfile.TemporaryDirectory(dir=str(core.WORK), prefix="c20log-") as tmp:
+        f = Path(tmp) / "results.json"
+        res.to_json(f)
+        backs = {"string": read_results(res.to_json()), "file": read_results(f)}
+    for how, back in backs.items():
+        want(back.ofv == res.ofv and list(back.parameter_estimates) == [1.0, -2.0], "log_numeric", f"{how}: numeric content changed")
+        got = [(x.category, x.message, x.time) for x in back.log]
+        exp = [(x.category, x.message, x.time) for x in log]
+        want(len(got) == len(exp), "log_length", f"{how}: {len(got)} log entries after the round trip, {len(exp)} before")
+        for k, (g, e) in enumerate(zip(got, exp)):
+            want(g == e, "log_entry", f"{how}: log entry {k} of {len(exp)} is {g[0]} {g[1]!r} ({g[2]}), was {e[0]} {e[1]!r} ({e[2]})")
+
+
 def json_precision_case(case):
     """read_results(to_json(r)) == r for a value that is not a small integer (relative 1e-12)"""
     import pandas as pd
@@ -580,12 +678,20 @@ def run_case(arg):
     if kind == "RUN":
         last = case["ext"][-1]
         record.update(cfg=case["cfg"], steps=len(case["ext"]), last_rowset=last["rowset"], rowsets=[t["rowset"] for t in case["ext"]],
-                      phikind=case["phikind"], zero=case["zero"], zeta=case["zeta"])
+                      phikind=case["phikind"], zero=case["zero"], zeta=case["zeta"], design=case["design"])
     aux = 0
     try:
         if kind == "GEN":
             record["stage"] = "table_file"
             check_gen(case, d)
+        elif kind == "LOG":
+            record["stage"] = "json_log"
+            record["entries"] = case["n"]
+            log_case(case)
+        elif kind == "HDR":
+            record["stage"] = "title_line"
+            record.update(goal=case["meta"]["goal"], design=case["meta"]["design"])
+            check_hdr(case, d)
         elif kind == "TAB":
             record["stage"] = "table_columns"
             record.update(noappend=case["tab"]["noappend"], listed=case["tab"]["listed"])
@@ -672,13 +778,18 @@ def main(tier: str, seed: int) -> int:
     finally:
         shutil.rmtree(d, ignore_errors=True)
     tabs = [c for tag, c in res.prints if tag == "TAB"]
+    hdrs = [c for tag, c in res.prints if tag == "HDR"]
+    logs = [c for tag, c in res.prints if tag == "LOG"]
+    if {c["n"] for c in logs} != {0, 1, 10, 11, 14}:
+        raise core.MachineryError(f"NMTable.tla emitted log sizes {sorted({c['n'] for c in logs})}")
     gens = [c for tag, c in res.prints if tag == "GEN"]
     runs = [c for tag, c in res.prints if tag == "RUN"]
     res.out, res.prints = "", []
     # vacuity: every kind of line / special row / outcome class must occur
     rowsets = {t["rowset"] for r in runs for t in r["ext"]}
     if not gens or not runs or rowsets != {"full", "nocov", "abort", "nm72", "covabort"} or not any(t["rep"] for g in gens for t in g["tabs"]) \
-            or not any(len(r["ext"]) > 1 for r in runs) or not any(any(r["runfixed"]) for r in runs) or {r["phikind"] for r in runs} != {"ETA", "PHI"} or not any(r["zeta"] for r in runs) \
+            or not any(len(r["ext"]) > 1 for r in runs) or not any(any(r["runfixed"]) for r in runs) or {r["phikind"] for r in runs} != {"ETA", "PHI"} or not any(r["zeta"] for r in runs) or not any(r["design"] for r in runs) \
+            or not any(h["meta"]["goal"] for h in hdrs) or not any(not h["meta"]["goal"] and h["meta"]["design"] for h in hdrs) \
             or not any(t["noappend"] for t in tabs) or not any(not t["noappend"] and "DV" in t["listed"] for t in tabs):
         raise core.MachineryError(f"NMTable.tla emitted a vacuous case set: {len(gens)} table files, {len(runs)} runs, row sets {rowsets}")
     core.use_repo()
@@ -696,6 +807,7 @@ def main(tier: str, seed: int) -> int:
         picked, seen = [], set()
         for r in runs:
             keys = [("cfg", json.dumps(r["cfg"], sort_keys=True), r["ext"][-1]["rowset"]),
+                    ("design", r["design"], r["cfg"]["om"], r["cfg"]["fix"], len(r["ext"]), r["phikind"], r["zero"]),
                     ("phi", r["phikind"], r["zero"], r["zeta"], r["ext"][-1]["rowset"], r["cfg"]["om"]),
                     ("steps", tuple(t["rowset"] for t in r["ext"]), tuple(r["ext"][0]["iters"]))]
             if any(k not in seen for k in keys):
@@ -714,6 +826,8 @@ def main(tier: str, seed: int) -> int:
         short = [t for t in tabs if len(t["listed"]) <= 4]
         tabs = short + [t for t in tabs if len(t["listed"]) > 4][:40]
     work += [("TAB", {"tab": t, "base": base}, 0) for t in tabs]
+    work += [("HDR", h, 0) for h in hdrs]
+    work += [("LOG", c, 0) for c in logs]
     for k, c, _ in work:
         if "cfg" in c:
             get_model(c)  # parse each distinct control stream once, in the parent
@@ -730,6 +844,8 @@ def main(tier: str, seed: int) -> int:
     v.add_coverage(
         table_files=len(gens),
         table_layouts=len(tabs),
+        title_lines=len(hdrs),
+        result_logs=len(logs),
         table_layouts_enumerated_by_tlc=n_tabs,
         run_directories=len(runs),
         run_directories_enumerated_by_tlc=n_emitted,
